@@ -482,3 +482,51 @@ Proof.
   unfold repr_int. destruct (dec_ok (Z.abs_N z)) as (_ & _ & C).
   destruct (Z.ltb z 0); [discriminate | assumption].
 Qed.
+
+(* ---- statements of Properties.v -------------------------------------------------------------- *)
+
+Lemma full_attr_roundtrip :
+  forall (F : Type) (float_parse : str -> option F) (float_repr : F -> str) (printable : N -> bool) (a : attr F),
+    (forall f, float_text_ok (float_repr f) = true /\ float_parse (float_repr f) = Some f) ->
+    match a with
+    | AStr s => Forall (fun c => (c < 1114112)%N /\ ((65536 <= c)%N -> printable c = true)) s
+    | _ => True
+    end ->
+    parse_attr F float_parse false (py_repr F printable float_repr a) = to_pres a.
+Proof.
+  intros F fp fr pr [s | z | f] HF HS; cbn [py_repr to_pres].
+  - apply roundtrip_str_gen; (eapply Forall_impl; [| exact HS]); cbv beta.
+    + intros c [H _]. exact H.
+    + intros c [_ H] H'. left. exact (H H').
+  - apply roundtrip_int.
+  - apply roundtrip_float; apply HF.
+Qed.
+
+Lemma full_attr_roundtrip_refuted :
+  forall (F : Type) (float_parse : str -> option F) (printable : N -> bool),
+    printable 917505%N = false ->
+    exists s, parse_attr F float_parse false (repr_str printable s) <> PStr s
+              /\ parse_attr F float_parse false (repr_str printable s)
+                 = PStr [92; 85; 48; 48; 48; 101; 48; 48; 48; 49]%N.
+Proof.
+  intros F fp pr H. exists [917505%N]. destruct (roundtrip_refuted F fp pr H) as [A B]. split; assumption.
+Qed.
+
+Lemma full_attr_roundtrip_repaired :
+  forall (F : Type) (float_parse : str -> option F) (printable : N -> bool) (s : str),
+    Forall (fun c => (c < 1114112)%N) s ->
+    parse_attr F float_parse true (repr_str printable s) = PStr s.
+Proof.
+  intros F fp pr s H. apply roundtrip_str_gen; [exact H |]. eapply Forall_impl; [| exact H].
+  intros c Hc _. right. split; [reflexivity |]. apply N.lt_trans with (1 := Hc). reflexivity.
+Qed.
+
+Lemma full_header_line_roundtrip :
+  forall (printable : N -> bool) (name : str),
+    name <> [] -> memN 58 name = false ->
+    (forall s, parse_line (header_line name (repr_str printable s)) = Some (name, repr_str printable s))
+    /\ (forall z, parse_line (header_line name (repr_int z)) = Some (name, repr_int z))
+    /\ (forall t, tight t -> parse_line (header_line name t) = Some (name, t)).
+Proof.
+  intros pr name Hn Hc. repeat split; intros; apply header_roundtrip; auto using tight_repr_str, tight_repr_int.
+Qed.
